@@ -151,6 +151,9 @@ fn record(cid: u64, outs: &[StepOut], prefix: &str, sigs: &mut Vec<(u64, u64, St
         if !o.invalid_certs.is_empty() {
             stats.harness_findings.push((cid, format!("{}:created-certificate-rejected-by-ValidatedCert:{}", prefix, o.invalid_certs[0])));
         }
+        if let Some(b) = &o.bundle_problem {
+            stats.harness_findings.push((cid, format!("{}:standstill-bundle:{}", prefix, b)));
+        }
     }
 }
 
@@ -442,9 +445,10 @@ pub fn world(rng: &mut Rng, stakes: &[u64], own: u64, with_waits: bool, with_old
     if with_old_votes {
         // late votes for arbitrary (possibly already decided) slots
         for _ in 0..rng.range(1, 6) {
+            // (only votes consistent with the slot's fate, so that a heavy validator's late vote cannot
+            //  create a certificate that contradicts the ground truth)
             let s = rng.range(1, nslots);
-            let k = *rng.pick(&[VK::Notar, VK::Skip, VK::Final, VK::SkipFb]);
-            let h = chain[s as usize].unwrap_or(s * 10 + 1);
+            let (k, h) = match chain[s as usize] { Some(h) => (VK::Notar, h), None => (*rng.pick(&[VK::Skip, VK::SkipFb]), 0) };
             groups.push(vec![Op::Vote { slot: s, kind: k, hash: h, signer: rng.below(n) }]);
         }
     }
@@ -498,4 +502,9 @@ pub fn gen_c07(seed: u64, tier: Tier) -> CaseSet {
 pub fn gen_c08(seed: u64, tier: Tier) -> CaseSet {
     gen_world(seed, tier, 8, 0xC08, 500, 10000, false, true, false,
               &format!("{}; plus late votes for arbitrary (possibly decided) slots; non-trivial as C07", WORLD_RULE))
+}
+
+pub fn gen_c18(seed: u64, tier: Tier) -> CaseSet {
+    gen_world(seed, tier, 18, 0xC18, 300, 6000, false, true, true,
+              &format!("{}; standstill recovery is triggered after random prefixes and at the end (also on pools that finalized nothing beyond genesis); each bundle is validated element-wise with ValidatedCert/ValidatedVote::try_new and replayed into a second real pool; non-trivial as C07", WORLD_RULE))
 }
